@@ -473,6 +473,11 @@ func bindResults(fc *FuncContract, res *Val, vars map[string]*Val) {
 }
 
 func (ex *Exec) pkgOfKey(fc *FuncContract, f *ssa.Function) *types.Package {
+	if fc.Pkg != "" {
+		if tp := ex.eng.typesPkgs[fc.Pkg]; tp != nil {
+			return tp
+		}
+	}
 	if f != nil {
 		if p := pkgPathOf(f); p != "" {
 			if tp := ex.eng.typesPkgs[p]; tp != nil {
@@ -581,7 +586,9 @@ func (ex *Exec) applyContract(ctx *callCtx, fc *FuncContract, f *ssa.Function) [
 	bindResults(fc, res, rvars)
 	for _, c := range fc.Ensures {
 		// a clause that mentions the callee's locals is internal to the callee: not assumed here
-		if t := ex.tryEvalClause(st, old, c, rvars, pkg); t != nil {
+		if fc.Trusted || f == nil || f.Blocks == nil {
+			st.assume(evalIn(st, old, c, rvars))
+		} else if t := ex.tryEvalClause(st, old, c, rvars, pkg); t != nil {
 			st.assume(t)
 		}
 	}
@@ -653,6 +660,26 @@ func (ex *Exec) applyModifies(ctx *callCtx, fc *FuncContract, vars map[string]*V
 				env.ghost(g)
 			}
 			ex.havocArr(st, n)
+		case strings.HasPrefix(m, "map *"):
+			v := vars[strings.TrimPrefix(m, "map *")]
+			if v == nil {
+				ex.fail("modifies: unknown parameter %s", m)
+			}
+			// contents of the map the pointer currently refers to
+			var mv *Val
+			var pt types.Type
+			if v.K == VAddr {
+				mv = ex.load(st, v.A)
+				pt = v.A.Ty
+			} else if p, ok := v.Ty.Underlying().(*types.Pointer); ok {
+				mv = ex.load(st, &Addr{Kind: AObj, Root: p.Elem(), Obj: v.T, Ty: p.Elem()})
+				pt = p.Elem()
+			}
+			if mt, ok := pt.Underlying().(*types.Map); ok && mv != nil {
+				ex.havocMap(st, mt, mv.T)
+			} else {
+				ex.fail("modifies: %s is not a pointer to a map", m)
+			}
 		case strings.HasPrefix(m, "*"):
 			v := vars[strings.TrimPrefix(m, "*")]
 			if v == nil {
